@@ -143,7 +143,7 @@ def simulate_one(args):
         from uwg.utilities import REF_BLDTYPE, REF_BUILTERA, REF_ZONETYPE
         import tempfile
         with core.quiet():
-            m = U.new_model(epw=epw, outdir=tempfile.gettempdir(), outname='c19_%d.epw' % os.getpid(),
+            m = U.new_model(epw=epw, outdir=(os.environ.get('VERIF_WORK_TMP') or tempfile.gettempdir()), outname='c19_%d.epw' % os.getpid(),
                             nday=1, dtsim=dtsim, month=month, day=1,
                             bld=[(REF_BLDTYPE[i], REF_BUILTERA[j], 1.0)], zone=REF_ZONETYPE[k])
             m.generate()
@@ -188,12 +188,12 @@ def simulate_climate(args):
         out['labels'] = [REF_BLDTYPE[i], REF_BUILTERA[j], REF_ZONETYPE[k]]
         epw = U.rp(src)
         if kind:
-            tmp = os.path.join(tempfile.gettempdir(), 'c19_climate_%d.epw' % os.getpid())
+            tmp = os.path.join((os.environ.get('VERIF_WORK_TMP') or tempfile.gettempdir()), 'c19_climate_%d.epw' % os.getpid())
             S.save_epw(V4.climate_rows(S.load_epw(epw), kind, month, day), tmp)
             epw = tmp
         B.Building.BEMCalc = bemcalc
         with core.quiet():
-            m = U.new_model(epw=epw, outdir=tempfile.gettempdir(), outname='c19c_%d.epw' % os.getpid(), nday=1,
+            m = U.new_model(epw=epw, outdir=(os.environ.get('VERIF_WORK_TMP') or tempfile.gettempdir()), outname='c19c_%d.epw' % os.getpid(), nday=1,
                             dtsim=dtsim, month=month, day=day, bld=[(REF_BLDTYPE[i], REF_BUILTERA[j], 1.0)],
                             zone=REF_ZONETYPE[k])
             m.generate()
@@ -690,6 +690,7 @@ def circumstance_ties(chk, quick):
 
 
 def run(chk):
+    chk.work()      # creates the scratch directory that the worker processes write into
     # translator: regenerate the Lean table from the working tree, then re-check the theorems
     info, (sb, ss, rb, rs, srows, rrows) = reftables.generate()
     chk.extra_cov['translator'] = info
